@@ -270,6 +270,20 @@ func inheritFromTypedef(parent Leafable, tdef *Typedef) {
 	}
 }
 
+// resolveLeafref follows the path of a leafref from the leaf it is the type of
+func resolveLeafref(y *Type, parent Leafable) error {
+	// parent is a leaf, so start with parent's parent which is a container-ish
+	resolvedMeta := Find(parent, y.path)
+	if resolvedMeta == nil {
+		return fmt.Errorf("%s - %s path cannot be resolved", SchemaPath(parent), y.ident)
+	} else if target, hasType := resolvedMeta.(HasType); hasType {
+		y.delegate = target.Type()
+	} else {
+		return fmt.Errorf("%s - %s path leads to %s which is not a leaf", SchemaPath(parent), y.ident, resolvedMeta.Ident())
+	}
+	return nil
+}
+
 func (c *compiler) compileType(y *Type, parent Leafable, isUnion bool) error {
 	if y == nil {
 		return errors.New("no type set on " + SchemaPath(parent))
@@ -286,6 +300,14 @@ func (c *compiler) compileType(y *Type, parent Leafable, isUnion bool) error {
 				return err
 			}
 			inheritFromTypedef(parent, tdef)
+		}
+		if _, inTypedef := parent.(*Typedef); !inTypedef && !isUnion && (y.format == val.FmtLeafRef || y.format == val.FmtLeafRefList) {
+			// what the path leads to depends on where this copy of the leaf stands
+			own := *y
+			if err := resolveLeafref(&own, parent); err != nil {
+				return err
+			}
+			parent.setType(&own)
 		}
 		return nil
 	}
@@ -316,14 +338,8 @@ func (c *compiler) compileType(y *Type, parent Leafable, isUnion bool) error {
 			y.delegate = y
 			return nil
 		}
-		// parent is a leaf, so start with parent's parent which is a container-ish
-		resolvedMeta := Find(parent, y.path)
-		if resolvedMeta == nil {
-			return fmt.Errorf("%s - %s path cannot be resolved", SchemaPath(parent), y.ident)
-		} else if target, hasType := resolvedMeta.(HasType); hasType {
-			y.delegate = target.Type()
-		} else {
-			return fmt.Errorf("%s - %s path leads to %s which is not a leaf", SchemaPath(parent), y.ident, resolvedMeta.Ident())
+		if err := resolveLeafref(y, parent); err != nil {
+			return err
 		}
 	} else {
 		y.delegate = y
